@@ -81,6 +81,16 @@ def gen_world(t):
     return spec
 
 
+def dflt_pre(ref):
+    """a structure draw that selects the first non-Markov structure"""
+    cf = Fraction(0)
+    for b in ref.base:
+        if "M" not in b["replacements"]:
+            return float(cf + Fraction(b["prob"]) / 2)
+        cf += Fraction(b["prob"])
+    return 0.5
+
+
 def bisect_switch(f, lo, hi, flo, fhi, iters=60):
     """f(lo)=flo != f(hi)=fhi; returns the largest x with f(x)==flo found (float bisection)"""
     for _ in range(iters):
@@ -271,8 +281,23 @@ def run_one(tape, tier, prop):
         if not only_m:
             for mode in ("honeywords", "random_walk"):
                 N = t.between(1, 12)
-                style = t.draw(4)
-                if style == 0:
+                style = t.draw(5)
+                m_cells = []
+                cf = Fraction(0)
+                for b in ref.base:
+                    if "M" in b["replacements"]:
+                        m_cells.append(float(cf + Fraction(b["prob"]) / 2))
+                    cf += Fraction(b["prob"])
+                if style == 4 and not m_cells:
+                    style = 3
+                if style == 4:
+                    # the walk lands on the Markov structure (no word) well over a thousand times before and between
+                    # the draws that yield words: the session must keep going until N words are out
+                    floats = []
+                    for _ in range(N):
+                        floats += [m_cells[0], 0.5] * t.choice([300, 1100])
+                        floats += [dflt_pre(ref)] + [t.draw(1 << 20) / float(1 << 20) for _ in range(6)]
+                elif style == 0:
                     floats = [TOP] * 400
                 elif style == 1:
                     floats = [0.0] * 400
@@ -291,10 +316,10 @@ def run_one(tape, tier, prop):
                     cumf += Fraction(b["prob"])
                 rng = ScriptedRandom(floats=floats, choices=[t.draw(5) for _ in range(400)], default_float=dflt)
                 text, seam, r = c09.run_proc(["-r", "R", "-s", "S", "--mode", mode, "--limit", str(N)] + flag_args, mode_rng=rng)
-                res.faults["scripted_draws_" + ["top", "zero", "mixed_extremes", "uniform"][style]] += 1
+                res.faults["scripted_draws_" + ["top", "zero", "mixed_extremes", "uniform", "markov_heavy"][style]] += 1
                 if r.exc:
                     res.violate("C16", "run_raised_before_N_words", {"mode": mode, "limit": N, "written": len(seam),
-                                                                     "draw_style": ["top", "zero", "mixed", "uniform"][style],
+                                                                     "draw_style": ["top", "zero", "mixed", "uniform", "markov_heavy"][style],
                                                                      "exception": r.exc[-500:]})
                     break
                 if len(set(rng.seeds)) != len(rng.seeds):
